@@ -61,6 +61,11 @@ fn date_parts() -> Vec<(&'static str, bool, usize)> {
         // the same text" is demanded (has_date = false); no field derived from the full year appears
         ("yy-MM-dd", false, 0),
         ("d.M.yy", false, 0),
+        // redundant but consistent date fields: day of year next to month and/or day of month
+        ("yyyy MMM DDD", true, 0),
+        ("DDD MM yyyy", true, 0),
+        ("yyyy-MM-dd DDD", true, 0),
+        ("D d y", true, 0),
         // over-long runs: format falls back to the default width, parse must read that width back
         ("yyyy-MM-ddd", true, 0),
         ("yyyy-MM-dd wwww", true, 0),
